@@ -97,6 +97,8 @@ def inhabits_typing(v, tp, ctx, why=None, path="$"):
         return False
 
     fw = ctx["framework"]
+    if type(tp).__name__ == "Unresolvable":
+        return no(f"annotation does not evaluate: {tp.why}")
     if tp is typing.Any:
         return True
     if tp is None or tp is type(None):
